@@ -158,6 +158,25 @@ def handle (line : String) : String :=
       let intact := rel == clientBytes script && en == clientEnd script
       s!"res={tcpResStr o.buf o.result} armed=0 relay={hx rel} end={optErr en} intact={boolStr intact} # nm={boolStr (o.needMoreSeen && !o.result.toBool)} buf={o.buf.length} derr={optErr o.dataError}"
     | _, _ => "bad-op"
+  | "ttcp" :: dl :: dr :: evs =>
+    -- timed script: `<delay>:<event>`; async = plain reader (answer and time only)
+    let parseT (t : String) : Option TEv :=
+      match t.splitOn ":" with
+      | d :: rest => do let dt ← d.toNat?; let e ← parseEv (":".intercalate rest); pure ⟨dt, e⟩
+      | _ => none
+    match dl.toNat?, evs.mapM parseT with
+    | some D, some script =>
+      let ot := sniffTcpT D script
+      if dr = "async" then s!"res={tcpResStr ot.buf ot.result} t={ot.time}"
+      else match parseDrain dr with
+        | some d =>
+          let o := sniffTcp (untime D 0 script)
+          let (rel, en) := relayBytes o d
+          let evs := script.map TEv.ev
+          let intact := rel == clientBytes evs && en == clientEnd evs
+          s!"res={tcpResStr ot.buf ot.result} t={ot.time} armed=0 relay={hx rel} end={optErr en} intact={boolStr intact}"
+        | none => "bad-op"
+    | _, _ => "bad-op"
   | ["frames", offs, h] =>
     match parseBlocks offs, unhx h with
     | some o, some p =>
